@@ -318,6 +318,9 @@ func (t *trans) expr(e cExpr) (string, vtype) {
 		}
 		t.fail("cannot index %s", x.X.String())
 	case *cQuant:
+		if f, ok := t.expandSmallRange(x); ok {
+			return f, vtype{"Bool", nil}
+		}
 		var bs []string
 		nv := map[string]tvar{}
 		nb := map[string]bool{}
@@ -369,6 +372,60 @@ func (t *trans) expr(e cExpr) (string, vtype) {
 	}
 	t.fail("cannot translate %s", e.String())
 	return "", vtype{}
+}
+
+// expandSmallRange: `forall k int :: 0 <= k && k < len(E) ==> B` where E is a slice of statically known length
+// n <= 4 (the argument list of a variadic call) is translated as B[0] && ... && B[n-1]: E-matching cannot split an
+// index variable into cases.
+func (t *trans) expandSmallRange(x *cQuant) (string, bool) {
+	if !x.Forall || len(x.Vars) != 1 || x.Vars[0].Type != "int" || t.c.constLen == nil {
+		return "", false
+	}
+	k := x.Vars[0].Name
+	imp, ok := x.Body.(*cBin)
+	if !ok || imp.Op != "==>" {
+		return "", false
+	}
+	rng, ok := imp.X.(*cBin)
+	if !ok || rng.Op != "&&" {
+		return "", false
+	}
+	lo, ok1 := rng.X.(*cBin)
+	hi, ok2 := rng.Y.(*cBin)
+	if !ok1 || !ok2 || lo.Op != "<=" || hi.Op != "<" {
+		return "", false
+	}
+	if z, ok := lo.X.(*cInt); !ok || z.V != "0" {
+		return "", false
+	}
+	if id, ok := lo.Y.(*cIdent); !ok || id.Name != k {
+		return "", false
+	}
+	if id, ok := hi.X.(*cIdent); !ok || id.Name != k {
+		return "", false
+	}
+	ln, ok := hi.Y.(*cCall)
+	if !ok || ln.Fn != "len" || len(ln.Args) != 1 {
+		return "", false
+	}
+	arg, isId := ln.Args[0].(*cIdent)
+	if !isId {
+		return "", false
+	}
+	v, bound := t.vars[arg.Name]
+	if !bound {
+		return "", false
+	}
+	n, known := t.c.constLen[v.term]
+	if !known {
+		return "", false
+	}
+	var parts []string
+	for i := 0; i < n; i++ {
+		tt := t.withVars(map[string]tvar{k: {fmt.Sprint(i), vtype{"Int", types.Typ[types.Int]}}})
+		parts = append(parts, tt.formula(imp.Y))
+	}
+	return and(parts...), true
 }
 
 func arrayElemSort(s string) string {
